@@ -132,6 +132,18 @@ Example C07_ex_no_lost_wakeup :
         None, Some (1, 1%Z), true, false, [WakeChan 0], []).
 Proof. vm_compute. reflexivity. Qed.
 
+(** a check that finds an expired record returns ErrNotExist and drops the record (the C06 clause about waiters) *)
+Theorem C07_wait_on_expired_notexist : forall s t k v r,
+  pc_of s t = Some (PCheck k v) -> store s k = Some r -> expired r (now s) = true ->
+  exists s', step s (LCheck t) = Some s' /\ pc_of s' t = Some (PDone RNotExist) /\ store s' k = None.
+Proof. exact wait_on_expired_notexist. Qed.
+Print Assumptions C07_wait_on_expired_notexist.
+
+Example C07_ex_expired :
+  option_map (fun s => (map t_pc (thr s), store s 0))
+    (run init [Mut (OPut 0 (Some 3%Z)); Tick 4; Start 0 0 1%N; LCheck 0]) = Some ([PDone RNotExist], None).
+Proof. vm_compute. reflexivity. Qed.
+
 (** * cancel_isolated *)
 
 (** the locked tear-down of a cancelled call leaves every other call's entry (pc and
